@@ -330,4 +330,57 @@ func Distinct
   loop 0 invariant forall j :: 0 <= j && j < len(result) ==> result[j] == dat(slice, rangeindex + 1, j)
   loop 0 invariant[covers]  forall j :: 0 <= j && j <= rangeindex ==> memberOf(result, slice[j])
   loop 0 invariant[from]    forall m :: 0 <= m && m < len(result) ==> (exists j :: 0 <= j && j <= rangeindex && slice[j] == result[m])
+
+// DistinctFunc keeps an element iff no element kept so far "equals" it (reference definition by recursion)
+spec dflen(eq func, s []E, k int) int
+spec dfat(eq func, s []E, k int, j int) elem(s)
+spec dfdup(eq func, s []E, k int) bool = exists m :: 0 <= m && m < dflen(eq, s, k) && eq(dfat(eq, s, k, m), s[k])
+axiom dflen_zero(eq, s): dflen(eq, s, 0) == 0
+axiom dflen_step(eq, s, k): k >= 0 ==> dflen(eq, s, k+1) == dflen(eq, s, k) + b2i(!dfdup(eq, s, k))
+axiom dfat_step(eq, s, k, j): k >= 0 ==> ident(dfat(eq, s, k+1, j), ite(j < dflen(eq, s, k), dfat(eq, s, k, j), s[k]))
+
+func DistinctFunc
+  property C14
+  ensures[len]   len(result) == dflen(equals, slice, len(slice))
+  ensures[elems] forall j :: 0 <= j && j < len(result) ==> result[j] == dfat(equals, slice, len(slice), j)
+  ensures[fresh] fresh(result)
+  loop 0 use dflen_zero(equals, slice)
+  loop 0 use dflen_step(equals, slice, rangeindex + 1)
+  loop 0 use forall j :: {dfat(equals, slice, rangeindex + 2, j)} dfat_step(equals, slice, rangeindex + 1, j)
+  loop 0 invariant -1 <= rangeindex && rangeindex < len(slice) && fresh(result)
+  loop 0 invariant len(result) == dflen(equals, slice, rangeindex + 1)
+  loop 0 invariant forall j :: 0 <= j && j < len(result) ==> result[j] == dfat(equals, slice, rangeindex + 1, j)
+
+// CountBy / GroupBy: keys in first-appearance order, occurrence counts
+spec firstKey(keyer func, s []V, k int) bool = forall j :: 0 <= j && j < k ==> keyer(s[j]) != keyer(s[k])
+spec klen(keyer func, s []V, k int) int
+spec kat(keyer func, s []V, k int, j int) K
+spec kcnt(keyer func, s []V, k int, key K) int
+axiom klen_zero(keyer, s): klen(keyer, s, 0) == 0
+axiom klen_step(keyer, s, k): k >= 0 ==> klen(keyer, s, k+1) == klen(keyer, s, k) + b2i(firstKey(keyer, s, k))
+axiom kat_step(keyer, s, k, j): k >= 0 ==> kat(keyer, s, k+1, j) == ite(j < klen(keyer, s, k), kat(keyer, s, k, j), keyer(s[k]))
+axiom kcnt_zero(keyer, s, key): kcnt(keyer, s, 0, key) == 0
+axiom kcnt_step(keyer, s, k, key): k >= 0 ==> kcnt(keyer, s, k+1, key) == kcnt(keyer, s, k, key) + b2i(keyer(s[k]) == key)
+
+func CountBy
+  property C14
+  ensures[len]    len(result) == klen(keyer, slice, len(slice))
+  ensures[groups] forall i :: 0 <= i && i < len(result) ==> result[i].Key == kat(keyer, slice, len(slice), i) && result[i].Count == kcnt(keyer, slice, len(slice), result[i].Key)
+  ensures[fresh]  fresh(result)
+  loop 0 use klen_zero(keyer, slice)
+  loop 0 use klen_step(keyer, slice, rangeindex + 1)
+  loop 0 use forall j :: {kat(keyer, slice, rangeindex + 2, j)} kat_step(keyer, slice, rangeindex + 1, j)
+  loop 0 use forall key K :: {kcnt(keyer, slice, 0, key)} kcnt_zero(keyer, slice, key)
+  loop 0 use forall key K :: {kcnt(keyer, slice, rangeindex + 2, key)} kcnt_step(keyer, slice, rangeindex + 1, key)
+  loop 0 invariant -1 <= rangeindex && rangeindex < len(slice)
+  loop 0 invariant[a] m != nil
+  loop 0 invariant[b] fresh(m)
+  loop 0 invariant[c] (orderedKeys == nil || fresh(orderedKeys))
+  loop 0 invariant len(orderedKeys) == klen(keyer, slice, rangeindex + 1)
+  loop 0 invariant forall j :: 0 <= j && j < len(orderedKeys) ==> orderedKeys[j] == kat(keyer, slice, rangeindex + 1, j)
+  loop 0 invariant forall key K :: {has(m, key)} {kcnt(keyer, slice, rangeindex + 1, key)} has(m, key) == (kcnt(keyer, slice, rangeindex + 1, key) > 0) && m[key] == kcnt(keyer, slice, rangeindex + 1, key)
+  loop 0 invariant[seen]  forall j :: 0 <= j && j <= rangeindex ==> kcnt(keyer, slice, rangeindex + 1, keyer(slice[j])) > 0
+  loop 0 invariant[from]  forall key K :: {kcnt(keyer, slice, rangeindex + 1, key)} kcnt(keyer, slice, rangeindex + 1, key) > 0 ==> (exists j :: 0 <= j && j <= rangeindex && keyer(slice[j]) == key)
+  loop 1 invariant -1 <= rangeindex && rangeindex < len(orderedKeys) && fresh(groups) && len(groups) == len(orderedKeys)
+  loop 1 invariant forall i :: 0 <= i && i <= rangeindex ==> groups[i].Key == orderedKeys[i] && groups[i].Count == m[orderedKeys[i]]
 @*/
